@@ -364,6 +364,67 @@ def enum_loop_empty():
     return out
 
 
+# ---- wrappers around atomic parts inside atomic composites ------------------------------------------------------------
+
+AWRAP_SHAPES = ['multi-rev', 'multi-rev-both', 'arith-rev', 'multi-pass', 'arith-pass', 'multi-map-rev', 'rev-multi-rev',
+                'multi-single', 'multi-rev-multi', 'seq-of']
+
+
+def awrap_tree(C, shape, b=0, l=1, d=3, cls='const', how='mul', var=0):
+    """TimeReversalPT / ParallelChannelPT / ArithmeticPT(scalar) / an identifier in to_single_waveform around an atomic part
+    of an AtomicMultiChannelPT / ArithmeticAtomicPT; the windows are asymmetric in the part (begin b, length l < d)"""
+    A = lambda chs=('A',), name='m0': _atom(C, d, [_w(C, name, b, l), _w(C, 'm1', F(d) - F(1, 2), F(1, 2))], chs, cls)
+    B = lambda name='m2': _atom(C, d, [_w(C, name, F(1, 2), l)], ('B',))
+    rev = lambda x: {'k': 'rev', 'body': x}
+    pas = lambda x: {'k': 'pass', 'how': how, 'body': x}
+    own = [_w(C, 'm3', b, l)] if var % 2 else []
+    if shape == 'multi-rev':
+        return {'k': 'multi', 'ms': own, 'subs': [rev(A()), B()] if var % 4 < 2 else [A(), rev(B())]}
+    if shape == 'multi-rev-both':
+        return {'k': 'multi', 'ms': own, 'subs': [rev(A()), rev(B('m0'))]}
+    if shape == 'arith-rev':
+        return {'k': 'arith', 'ms': own, 'op': '+', 'l': rev(A()) if var % 4 < 2 else A(), 'r': rev(A(name='m2'))}
+    if shape == 'multi-pass':
+        return {'k': 'multi', 'ms': own, 'subs': [pas(A()), B()]}
+    if shape == 'arith-pass':
+        return {'k': 'arith', 'ms': own, 'op': '-', 'l': pas(A()), 'r': A(name='m2')}
+    if shape == 'multi-map-rev':
+        inner = {'k': 'map', 'pm': {}, 'mm': {'m0': 'm4', 'm1': None} if var % 4 < 2 else {'m0': 'm1', 'm1': 'm0'}, 'cs': [],
+                 'body': rev(A())}
+        return {'k': 'multi', 'ms': own, 'subs': [inner if var % 8 < 4 else rev(inner), B()]}
+    if shape == 'rev-multi-rev':
+        return rev({'k': 'multi', 'ms': own, 'subs': [rev(A()), B()]})
+    if shape == 'multi-single':
+        return {'k': 'multi', 'ms': own, 'subs': [{'k': 'single', 'body': rev(A()) if var % 4 < 2 else A()}, B()]}
+    if shape == 'multi-rev-multi':
+        inner = {'k': 'multi', 'ms': [_w(C, 'm4', 0, l)], 'subs': [A(), B()]}
+        return {'k': 'arith', 'ms': own, 'op': '+', 'l': rev(inner), 'r': pas(A(name='m5'))}
+    if shape == 'seq-of':
+        return {'k': 'seq', 'ms': own, 'subs': [{'k': 'multi', 'ms': [], 'subs': [rev(A()), B()]},
+                                                {'k': 'rep', 'ms': [], 'count': C.e_c(2),
+                                                 'body': {'k': 'multi', 'ms': [], 'subs': [A(), rev({'k': 'pass', 'how': 'mul', 'body': B()})]}}]}
+    raise ValueError(shape)
+
+
+def gen_awrap(rng, g, C):
+    shape = rng.choice(AWRAP_SHAPES)
+    t = awrap_tree(C, shape, b=rng.choice([0, F(1, 2), 1]), l=rng.choice([1, F(1, 2), F(3, 2)]), d=rng.choice([2, 3, 4]),
+                   cls=rng.choice(['const', 'table', 'point']), how=rng.choice(['mul', 'par']), var=rng.randrange(8))
+    for _ in range(rng.choice([0, 0, 1])):
+        t = wrap_tree(C, t, rng.choice(WRAPS), rng.choice([2, 3]))
+    names = sorted(x for x in C.meas_names(t) if x is not None)
+    return {'kind': 'prog', 'pt': t, 'env': _unit_env(C), 'mm': None if rng.random() < 0.5 else _retarget(names, rng),
+            'family': 'awrap:' + shape, 'share': rng.random() < 0.2, 'twice': rng.random() < 0.15}
+
+
+def enum_awrap(C):
+    out = []
+    for shape, var, how in itertools.product(AWRAP_SHAPES, range(8), ['mul', 'par']):
+        out.append({'kind': 'prog', 'pt': awrap_tree(C, shape, b=F(1, 2), l=1, d=3, how=how, var=var), 'env': _unit_env(C),
+                    'mm': None, 'family': 'awrap:enum'})
+    return out
+
+
 # ---- the same object under different contexts --------------------------------------------------------------------------
 
 def _retarget(names, rng=None, how=None):
